@@ -1,8 +1,9 @@
 """C08 (extension): the tabular views of results.py that are inside the engine's subset.
 
 `bioResults.get_general_statistics` builds a plain dict label -> GeneralStatistic(value, format): proved for ALL results
-objects: every label holds the raw quantity it names (one post clause per label); optional rows are present whenever
-their quantity exists.  The pandas-based views are decided by static obligations (specs/c08_static.py) and the bounded
+objects: every label holds the raw quantity it names (one post clause per label, plus one clause per combination of the
+five conditions under which optional rows are written -- together: all results objects); optional rows are present
+whenever their quantity exists.  The pandas-based views are decided by static obligations (specs/c08_static.py) and the bounded
 stand-in bounded/c08_tables.py.
 """
 from pyvc.contract import contract, field_type
@@ -46,13 +47,43 @@ def _slug(label):
     return ''.join(c if c.isalnum() else '_' for c in label).strip('_')
 
 
+# the five conditions under which optional rows are written
+CONDITIONS = {
+    'free': 'self.number_of_free_parameters() != self.data.nparam',
+    'obs': 'self.data.sampleSize != self.data.numberOfObservations',
+    'null': 'self.data.nullLogLike is not None',
+    'mc': 'self.data.monte_carlo',
+    'boot': 'self.data.bootstrap is not None',
+}
+_COND_OF = {'self.data.sampleSize != self.data.numberOfObservations': 'obs', 'self.data.nullLogLike is not None': 'null',
+            'self.data.monte_carlo': 'mc', 'self.data.bootstrap is not None': 'boot', 'True': None}
+
+
+def _row(label, field):
+    return f"({label!r} in result and same(result[{label!r}].value, self.data.{field}))"
+
+
+_FREE_ROW = ("('Number of free parameters' in result and "
+             "result['Number of free parameters'].value == self.number_of_free_parameters())")
+_ALL = ' and '.join(f'({c})' for c in CONDITIONS.values())
+
+# (1) one clause per label, on the results objects for which every optional row is written (names the row that is wrong)
 _ENS = {}
 for _label, (_field, _when) in GENERAL_STATISTICS.items():
-    _ENS['row_' + _slug(_label)] = (f"same(result[{_label!r}].value, self.data.{_field})" if _when == 'True' else
-                                    f"implies({_when}, {_label!r} in result and same(result[{_label!r}].value, self.data.{_field}))")
-_ENS['row_Number_of_free_parameters'] = (
-    "implies(self.number_of_free_parameters() != self.data.nparam, "
-    "'Number of free parameters' in result and result['Number of free parameters'].value == self.number_of_free_parameters())")
+    _ENS['row_' + _slug(_label)] = f"implies({_ALL}, {_row(_label, _field)})"
+_ENS['row_Number_of_free_parameters'] = f"implies({_ALL}, {_FREE_ROW})"
+
+# (2) one clause per combination of the five conditions (all results objects are in exactly one): every row written in
+#     that combination holds its quantity.  (Stated per combination because the solver is slow on the merged encoding of
+#     six conditional allocations; with the conditions fixed each clause is discharged in a fraction of a second.)
+for _bits in range(32):
+    _on = {c: bool(_bits >> k & 1) for k, c in enumerate(CONDITIONS)}
+    _scen = ' and '.join(f"({src})" if _on[c] else f"(not ({src}))" for c, src in CONDITIONS.items())
+    _rows = [_row(l, f) for l, (f, w) in GENERAL_STATISTICS.items() if _COND_OF[w] is None or _on[_COND_OF[w]]]
+    if _on['free']:
+        _rows.append(_FREE_ROW)
+    _name = 'rows_when_' + '_'.join(('' if _on[c] else 'no-') + c for c in CONDITIONS)
+    _ENS[_name] = f"implies({_scen}, {' and '.join(_rows)})"
 
 _GS_REPLAY = """
 import sys, warnings
@@ -61,7 +92,7 @@ sys.path.insert(0, '/verif/bounded')
 import c08_tables
 n, bad = c08_tables.run_views(cases=8, seed=0, only='general_statistics')
 slug = lambda t: ''.join(c if c.isalnum() else '_' for c in t).strip('_')
-row = payload.get('obligation', '').split(':row_')[-1]
+row = payload.get('obligation', '').split(':row_')[-1].split('#')[0]
 mine = [f for f in bad if slug(str(f.get('check')).split(':', 1)[-1]) == row]
 violated = bool(bad)
 detail = f'{n} cells compared with the raw fields; first mismatch: {(mine or bad)[0] if bad else None}'
